@@ -1336,6 +1336,22 @@ static void plan_followups(vh_rng *r, int dst, int src)
 		else { o->v1 = vh_chance(r, 1, 2); o->n = W.b[o->a].m.n + 1 + (size_t)vh_below(r, 24); }   /* resolved against the length at execution */
 	}
 }
+/* a reservation over several extents that is abandoned leaves empty chains behind the data; a following
+ * one-extent reservation then gets the first of them when the last chain with data is not worth resizing,
+ * and that extent is neither in the first chain with space nor in buf->last when it is committed */
+static void plan_abandoned_reservation(vh_rng *r, int a)
+{
+	struct op *o;
+	g_nfollow = 0;
+	o = &g_follow[g_nfollow++]; memset(o, 0, sizeof(*o)); o->a = o->b = a; o->kind = OP_ADD; o->dseed = vh_rand(r);
+	o->n = vh_chance(r, 1, 2) ? 600 + (size_t)vh_below(r, 400) : 3000 + (size_t)vh_below(r, 1000);
+	o = &g_follow[g_nfollow++]; memset(o, 0, sizeof(*o)); o->a = o->b = a; o->kind = OP_EXPAND; o->dseed = vh_rand(r);
+	o->n = 2000 + (size_t)vh_below(r, 3000);
+	o = &g_follow[g_nfollow++]; memset(o, 0, sizeof(*o)); o->a = o->b = a; o->kind = OP_RESERVE; o->dseed = vh_rand(r);
+	o->n = 50000 + (size_t)vh_below(r, 150000); o->v1 = 2 + (int)vh_below(r, 3); o->v2 = 0;
+	o = &g_follow[g_nfollow++]; memset(o, 0, sizeof(*o)); o->a = o->b = a; o->kind = OP_RESERVE; o->dseed = vh_rand(r);
+	o->n = 300 + (size_t)vh_below(r, 3000); o->v1 = 1; o->v2 = 1;
+}
 static void gen_op(vh_rng *r, struct op *o, const struct wt *t)
 {
 	int kind, i;
@@ -1365,6 +1381,7 @@ static void gen_op(vh_rng *r, struct op *o, const struct wt *t)
 	}
 	if (W.mode == M_CALLBACKS && kind == OP_BUFREF && W.b[o->b].taint_mc) kind = OP_ADD;
 	fill_op(r, o, kind);
+	if (kind == OP_RESERVE && W.mode != M_CALLBACKS && !W.b[o->a].fz_end && vh_chance(r, 1, 6)) { vh_stat("abandoned_reservation_shapes"); plan_abandoned_reservation(r, o->a); }
 	if (kind == OP_BUFREF && o->a != o->b && W.b[o->b].m.n && !W.b[o->a].fz_end && vh_chance(r, 1, 2)) plan_followups(r, o->a, o->b);
 }
 
